@@ -168,7 +168,7 @@ def sec_model(rec, kind="zncc", box=(6, 6, 6), axis=0, others=(0.0, 1.3), patche
     }[kind])
     if kind == "pcc":
         rec.assume("acryo's _upsampled_dft returns an array of shape (upsampled_region_size,)*3 with data dependent values (shape checked concretely each run)")
-        P._upsampled_dft = lambda data, size, factor, offs, backend: ShapeOnly((size,) * data.ndim)
+        P._upsampled_dft = stubs.like(P._upsampled_dft, lambda data, size, factor, offs, backend: ShapeOnly((size,) * data.ndim))
     msym = real(f"m{axis}")
     hi = 2 * box[axis]
     hyps = [msym.e >= 0, msym.e < hi]
